@@ -492,3 +492,93 @@ func init() {
 		Explain:     "every successful result is walked by the JSON invariant (null, bool, finite float64, string, non-nil []interface{}, non-nil map[string]interface{}, recursively); untouched lazy parts of the input satisfy it by assumption",
 	}
 }
+
+func init() {
+	specs["C14"] = &CheckSpec{Prop: "C14", Level: "model_checking",
+		Jobs: func(tier string) []*Job {
+			S, N := 2, 3
+			if tier == "thorough" {
+				S, N = 4, 4
+			}
+			var js []*Job
+			for s := 0; s <= S; s++ {
+				// verifNondetString forks over lengths 0..S itself: one job per maximum keeps jobs small
+			}
+			mk := func(entry string, kv ...string) {
+				j := jobOf(entry, []string{"C14"}, kv...)
+				j.Unwind = 96
+				j.WitEvery = 40
+				js = append(js, j)
+			}
+			mk("VerifQuotedIdent", "S", itoa(S))
+			mk("VerifRawString", "S", itoa(S))
+			for shape := 0; shape <= 3; shape++ {
+				mk("VerifLiteral", "S", itoa(S), "shape", itoa(shape))
+			}
+			for n := 0; n <= N; n++ {
+				mk("VerifUnquoted", "N", itoa(n))
+			}
+			return js
+		},
+		Bounds: func(tier string) map[string]interface{} {
+			if tier == "thorough" {
+				return map[string]interface{}{"string_bytes": "0..4 symbolic bytes, valid UTF-8 (all 1-4 byte code point patterns, controls, quotes, backslashes, backticks)", "raw_bytes": "N <= 4 arbitrary bytes"}
+			}
+			return map[string]interface{}{"string_bytes": "0..2 symbolic bytes, valid UTF-8", "raw_bytes": "N <= 3 arbitrary bytes"}
+		},
+		Assumptions: append(append([]string{}, commonAssumptions...), "JSON string/value decoding inside the lexer and parser is a Go model of encoding/json validated differentially in setup (2.7M inputs)",
+			"raw strings: a backslash directly before a quote or at the end of the string cannot be written and is excluded"),
+		Outside: []string{"strings longer than the bound", "JSON numbers in literals beyond 3-digit integers (decimal conversion not modelled)"},
+		Explain: "symbolic strings are spelled as quoted identifiers, raw strings and backtick literals by harness functions and pushed through the real lexer/parser/Search; unquoted identifiers by an SMT-level regular predicate; whitespace insertion at every token boundary",
+	}
+}
+
+func init() {
+	nav := []string{"a", "n", "p", "p.a", "p.n", "p.p", "s", "s[0]", "s[0].a", "s[-1].n", "s[*].a", "s[*]", "q", "q[0]", "q[0].a", "q[*].a", "q[*]", "q[]",
+		"s[]", "l", "l[0]", "l[*]", "l[1:]", "s[1:].a", "s[?a].n", "s[?n > `0`].a", "q[?a]", "[a, n]", "{x: a, y: p.a}", "p || a", "p && a", "!p", "a || n",
+		"s | [0]", "length(s)", "length(l)", "length(a)", "l[::-1]", "f[0]", "f[*]", "s[*].[a, n]", "q[*].n", "zz", "p.zz", "s[5]", "@.a", "[p]", "{k: p}",
+		"q[0] || a", "!q[0]", "[q[0]]", "s[*].p", "q[?n > `0`].a", "s[::2].n", "q[1:]", "p.s", "p.l[0]", "a == p.a", "n < p.n", "s[0] == s[1]", "[s[0].a, q[0].a]"}
+	funcs := []string{"contains(l, a)", "reverse(l)", "sort_by(s, &n)", "max_by(s, &n)", "min_by(s, &a)", "map(&a, s)", "join(a, l)", "sort(l)", "sort(f)",
+		"max(f)", "sum(f)", "avg(f)", "to_array(l)", "not_null(p, a)", "type(s)", "type(p)", "type(q[0])", "keys(@)", "values(p)", "merge(p, p)", "to_string(l)",
+		"to_string(p)", "length(q)", "contains(s, p)", "reverse(s)", "map(&n, q)", "sort_by(q, &n)", "not_null(q[0], a)", "to_number(p)", "abs(p)"}
+	usesOf := func(e string) string {
+		u := ""
+		for _, c := range "anpsqlf" {
+			if strings.ContainsRune(e, c) {
+				u += string(c)
+			}
+		}
+		// identifiers inside function names would over-approximate: harmless
+		return u
+	}
+	specs["C18"] = &CheckSpec{Prop: "C18", Level: "model_checking", Panics: true,
+		Jobs: func(tier string) []*Job {
+			var js []*Job
+			for _, ptr := range []string{"0", "1"} {
+				for _, e := range nav {
+					j := jobOf("VerifStruct", []string{"C18"}, "expr", e, "use", usesOf(e), "ptr", ptr, "cmp", "1")
+					j.Unwind = 64 + 4*len(e)
+					j.NumBound = 1e30
+					js = append(js, j)
+				}
+				for _, e := range funcs {
+					u := usesOf(e)
+					j := jobOf("VerifStruct", []string{"C18"}, "expr", e, "use", u, "ptr", ptr, "cmp", "0")
+					j.Unwind = 64 + 4*len(e)
+					j.NumBound = 1e30
+					if strings.Contains(e, "avg(") || strings.Contains(e, "sum(") {
+						j.Solver = "cvc5"
+					}
+					js = append(js, j)
+				}
+			}
+			return js
+		},
+		Bounds: func(tier string) map[string]interface{} {
+			return map[string]interface{}{"struct_type": "struct{A string; N float64; P *T; S []T; Q []*T; L []string; F []float64} by value and by pointer", "slices": "length 0..2", "pointers": "nil or non-nil (solver-chosen)", "navigation_templates": len(nav), "function_templates": len(funcs)}
+		},
+		Assumptions: append(append([]string{}, commonAssumptions...), "reflect is a model implemented in the executor (ValueOf, TypeOf, Kind, Len, Index, Interface, IsNil, Elem, FieldByName, IsValid, DeepEqual) over its own typed values"),
+		Outside:     []string{"struct shapes other than the harness type (embedded fields, maps with non-string keys, unexported fields)", "nil typed slices", "slices longer than 2"},
+		Explain:     "Search on struct/pointer/typed-slice documents vs Search on the equivalent generic JSON image; every built-in applied to typed slices must not panic",
+	}
+}
